@@ -13,7 +13,10 @@ import fam_emitast
 
 ID = "C04"
 COQ_PROP = "C04"
-FAMILIES = [(fam_parseast, 2500, 30000), (fam_emitast, 2500, 30000)]
+import fam_docemit  # noqa: E402  (help/description wrapping is pure_utils.fill; the function docstring goes through the docstring layers)
+import fam_docparse  # noqa: E402
+
+FAMILIES = [(fam_parseast, 2000, 30000), (fam_emitast, 2000, 30000), (fam_docemit, 1200, 15000), (fam_docparse, 1000, 15000)]
 TECHNIQUE = ("Coq proof of the AST-level codec parse_argparse_ast (emit_argparse ir): one add_argument call per parameter and one "
              "parameter per call, names and order for every IR, option combination and docstring (C04_names_order); inside "
              "guard_C04_ast (T, Optional[T], List[T] over a scalar T, Literal of two or more strings; wrapping off) the parser returns "
